@@ -1,11 +1,119 @@
-(* C18 — property theorems only (placeholder while the proofs are being built). *)
-From Coq Require Import List Arith ZArith.
+(* C18 — public union-find structures of byods/ascent-byods-rels agree with a reference closure
+   after any history.  Property theorems only; proofs are one-line references.
+   Models (mirrors of the Rust code, every failure an explicit Err):
+     UF/UfModel.v    uf.rs                UnionFind   (parent / rank / next cells, find with path halving
+                                                        on fuel = #elements, union by rank, the own check ok())
+     UF/TrUfModel.v  trrel_union_find.rs  TrRelUnionFind (sets, elem_ids, set_subsumptions, set_connections,
+                                                        reverse_set_connections; add, add_set_connection,
+                                                        merge_multiple, all public queries, the two assert_* checks)
+   Proofs: UF/UfProofs.v (+UfLemmas.v);  UF/TrUfProofs.v (+TrUfInv, TrUfCore, TrUfGraph, TrUfStep, TrUfNode,
+   TrUfMerge, TrUfCases, TrUfCollapse, TrUfQueries, TrUfLemmas).
+   Every theorem quantifies over ALL finite histories; "after every operation" is the instance at each prefix.
+   Nothing is partial. *)
+From Coq Require Import List Arith Relations.
 From AV Require Import UF.UfBase.
 From AV Require Import UF.UfModel.
+From AV Require Import UF.UfProofs.
 From AV Require Import UF.TrUfModel.
+From AV Require Import UF.TrUfInv.
+From AV Require Import UF.TrUfProofs.
 Import ListNotations.
 
+(* ================= UnionFind (uf.rs) ================= *)
+(* reference: [added [] ops] = the items present (insertion order), [upairs [] ops] = the unions performed
+   (union_add always; the raw union(id, id) when both items exist), [connected E] = equivalence closure. *)
+
+(* safety: no history of add / find_item / union_add / find(id) / union(id,id) makes the model fail: every
+   index the code uses unchecked (get_unchecked) is in bounds, find never runs out of fuel (= terminates
+   within #elements steps), no debug assertion fails *)
+Theorem c18_uf_safe : forall ops, exists st, uf_run uf_empty ops = Ok st.
+Proof. exact uf_run_total. Qed.
+
+(* the element vector is the insertion order of the items *)
+Theorem c18_uf_values : forall ops st, uf_run uf_empty ops = Ok st -> u_value st = added [] ops.
+Proof. exact uf_run_values. Qed.
+
+(* same class <-> connected by the unions performed: what find_item answers on any reachable state
+   (find_item x then find_item y; None exactly for items never added) *)
+Theorem c18_uf_classes : forall ops st, uf_run uf_empty ops = Ok st -> forall x y,
+  exists st1 rx st2 ry,
+    find_item st x = Ok (st1, rx) /\ find_item st1 y = Ok (st2, ry) /\
+    (rx = None <-> ~ In x (added [] ops)) /\ (ry = None <-> ~ In y (added [] ops)) /\
+    (In x (added [] ops) -> In y (added [] ops) -> (rx = ry <-> connected (upairs [] ops) x y)).
+Proof. exact uf_find_item_spec. Qed.
+
+(* the structure's own O(n^2) consistency check ok() (uf.rs:214-281, modelled step by step including the
+   path-halving finds it performs) returns true on every reachable state *)
+Theorem c18_uf_ok : forall ops st, uf_run uf_empty ops = Ok st -> uf_ok st = Ok true.
+Proof. exact uf_run_ok. Qed.
+
+(* ================= TrRelUnionFind (trrel_union_find.rs) ================= *)
+(* reference: [rtc adds] = reflexive transitive closure of the added pairs on the mentioned elements *)
+Theorem c18_rtc_is_closure : forall E x y,
+  rtc E x y <-> (x = y /\ mentioned E x) \/ clos_trans nat (fun a b => In (a, b) E) x y.
+Proof. exact rtc_char. Qed.
+
+(* no sequence of add operations fails (no index out of bounds, no unwrap on None, no failed assertion -
+   including the debug-only assert_disjoint_invariant inside add -, get_dominant_id terminates) *)
+Theorem c18_truf_safe : forall adds, exists st, tr_run tr_empty adds = Ok st.
+Proof. exact truf_total. Qed.
+
+(* assert_disjoint_invariant and assert_set_connections_dominant_sets pass *)
+Theorem c18_truf_invariants : forall adds st, tr_run tr_empty adds = Ok st ->
+  disjoint_ok st = true /\ dominant_ok st = true.
+Proof. exact truf_asserts. Qed.
+
+(* contains: sound and complete (in particular contains(x, x) is false for an element never mentioned) *)
+Theorem c18_truf_contains : forall adds st, tr_run tr_empty adds = Ok st -> forall x y,
+  exists b, tr_contains st x y = Ok b /\ (b = true <-> rtc adds x y).
+Proof. exact truf_contains. Qed.
+
+(* set_of / rev_set_of: None exactly for unmentioned elements, otherwise a duplicate-free enumeration *)
+Theorem c18_truf_set_of : forall adds st, tr_run tr_empty adds = Ok st -> forall x,
+  exists o, tr_set_of st x = Ok o /\ (o = None <-> ~ mentioned adds x) /\
+            forall l, o = Some l -> NoDup l /\ forall y, In y l <-> rtc adds x y.
+Proof. exact truf_set_of. Qed.
+Theorem c18_truf_rev_set_of : forall adds st, tr_run tr_empty adds = Ok st -> forall x,
+  exists o, tr_rev_set_of st x = Ok o /\ (o = None <-> ~ mentioned adds x) /\
+            forall l, o = Some l -> NoDup l /\ forall y, In y l <-> rtc adds y x.
+Proof. exact truf_rev_set_of. Qed.
+
+(* iter_all: a duplicate-free enumeration of the closure *)
+Theorem c18_truf_iter_all : forall adds st, tr_run tr_empty adds = Ok st ->
+  exists l, tr_iter_all st = Ok l /\ NoDup l /\ forall x y, In (x, y) l <-> rtc adds x y.
+Proof. exact truf_iter_all. Qed.
+
+(* count_exact: the number of pairs of the closure *)
+Theorem c18_truf_count_exact : forall adds st, tr_run tr_empty adds = Ok st ->
+  exists l, NoDup l /\ (forall x y, In (x, y) l <-> rtc adds x y) /\ tr_count_exact st = Ok (length l).
+Proof. exact truf_count_exact. Qed.
+
+Theorem c18_truf_is_empty : forall adds st, tr_run tr_empty adds = Ok st -> (tr_is_empty st = true <-> adds = []).
+Proof. exact truf_is_empty. Qed.
+
+(* ================= non-vacuity: concrete histories computed in the kernel VM ================= *)
+(* a back edge over a chain collapses three classes into one (sets 0 and 1 subsumed by 2; note the self loop
+   2 -> 2 in set_connections without a counterpart in reverse_set_connections, exactly as in the Rust code) *)
 Example c18_example_collapse :
-  tr_run tr_empty [(0,1);(1,2);(2,0)] = Ok (mkTr [[]; []; [2; 1; 0]] [(0, 2); (1, 1); (2, 2)] [(1, 2); (0, 2)] [(2, [2])] [(2, [])]).
+  tr_run tr_empty [(0,1);(1,2);(2,0)] =
+    Ok (mkTr [[]; []; [2; 1; 0]] [(0, 2); (1, 1); (2, 2)] [(1, 2); (0, 2)] [(2, [2])] [(2, [])])
+  /\ (do st <- tr_run tr_empty [(0,1);(1,2);(2,0);(3,3)];
+      do a <- tr_contains st 1 0; do b <- tr_contains st 0 3; do c <- tr_contains st 4 4; do d <- tr_contains st 3 3;
+      do n <- tr_count_exact st; Ok (a, b, c, d, n, disjoint_ok st, dominant_ok st))
+     = Ok (true, false, false, true, 10, true, true).
+Proof. vm_compute. split; reflexivity. Qed.
+
+(* unions with path halving and the circular class list; ok() holds, classes as expected *)
+Example c18_example_uf :
+  (do st <- uf_run uf_empty [OUnionAdd 0 1; OUnionAdd 2 3; OUnionAdd 1 3; OAdd 4; OFindItem 3; OFindId 3];
+   do ok <- uf_ok st;
+   do (st1, r0) <- find_item st 0; do (st2, r3) <- find_item st1 3; do (st3, r4) <- find_item st2 4;
+   Ok (u_parent st, u_rank st, u_next st, ok, r0, r3, r4))
+  = Ok ([0; 0; 0; 0; 4], [2; 0; 1; 0; 0], [3; 0; 1; 2; 4], true, Some 0, Some 0, Some 4).
 Proof. vm_compute. reflexivity. Qed.
-Print Assumptions c18_example_collapse.
+
+Print Assumptions c18_uf_safe. Print Assumptions c18_uf_values. Print Assumptions c18_uf_classes.
+Print Assumptions c18_uf_ok. Print Assumptions c18_rtc_is_closure. Print Assumptions c18_truf_safe.
+Print Assumptions c18_truf_invariants. Print Assumptions c18_truf_contains. Print Assumptions c18_truf_set_of.
+Print Assumptions c18_truf_rev_set_of. Print Assumptions c18_truf_iter_all. Print Assumptions c18_truf_count_exact.
+Print Assumptions c18_truf_is_empty. Print Assumptions c18_example_collapse. Print Assumptions c18_example_uf.
